@@ -258,3 +258,13 @@ def list_of(t):
 def New(cls):
     """a freshly allocated, uninitialised instance (the `self` of __init__)"""
     return Shape('new', cls=cls)
+
+
+def body_ensures(*a, **k): pass
+def body_raises(*a, **k): pass
+def head(x): return x
+def pre(x): return x
+
+
+def invariant_in(*a, **k): pass
+def hint_in(*a, **k): pass
